@@ -279,6 +279,13 @@ def cmd_key(cmd, ren):
             ('?p%d' % i, repr(B.from_pytype(p.symbol_type())))
             for i, p in enumerate(params)), repr(B.from_pytype(rtype)),
             rename(K.skey(body), local))
+    if cmd.name == smtcmd.ASSERT_SOFT:
+        # an omitted weight is the standard's default 1 (the parser fills
+        # it in); the order of the attributes does not matter
+        params = dict((str(a), b) for (a, b) in cmd.args[1])
+        kp = dict((a, k(b)) for a, b in params.items())
+        kp.setdefault(':weight', ('F', ('int', 1, ())))
+        return (cmd.name, k(cmd.args[0]), tuple(sorted(kp.items())))
     return (cmd.name, k(cmd.args))
 
 
@@ -290,7 +297,7 @@ def rename(b, ren):
     return (op, pl, ks)
 
 
-FORMULA_CMDS = ('assert', 'define-fun', 'get-value')
+FORMULA_CMDS = ('assert', 'define-fun', 'get-value', 'assert-soft')
 
 
 def random_script(rng, env, names):
@@ -363,8 +370,11 @@ def random_script(rng, env, names):
             sc.add(smtcmd.GET_VALUE, [rng.choice(ints + bvs + bools)])
         elif k < 0.86:
             params = [(':id', rng.choice(['g1', 'g2']))]
-            if rng.random() < 0.5:
-                params.insert(0, (':weight', mgr.Int(rng.randint(1, 5))))
+            if rng.random() < 0.6:
+                params.insert(0, (':weight', rng.choice([
+                    mgr.Int(rng.randint(1, 5)), mgr.Int(1), mgr.Real(1),
+                    mgr.Real((rng.randint(1, 7), 2)), mgr.Int(0),
+                    mgr.BV(1, 4), mgr.BV(rng.randrange(16), 4)])))
             sc.add(smtcmd.ASSERT_SOFT, [formula(), params])
         elif k < 0.93 and (ints or bvs):
             t = rng.choice(ints + bvs)
